@@ -55,6 +55,8 @@ iter:
 	for n := 0; true; n++ {
 		for i := 0; i < cnt; i++ {
 			switch ta := args[i].(type) {
+			case nil:
+				break iter // the empty list
 			case slip.String:
 				ra := []rune(ta)
 				if len(ra) <= n {
@@ -66,6 +68,12 @@ iter:
 					break iter
 				}
 				pargs[i] = ta[n]
+			case *slip.Vector:
+				elements := ta.AsList() // the elements up to the fill pointer
+				if len(elements) <= n {
+					break iter
+				}
+				pargs[i] = elements[n]
 			case slip.VectorLike:
 				if ta.Length() <= n { // Length() for vectors is the same as Dimensions()[0]
 					break iter
